@@ -454,3 +454,120 @@ def tab_builtin_values(run, R="TAB-op"):
         g_, w_ = got.get(name), want.get(name)
         run.check(g_ == w_, R, R + "|builtin-value|" + name, "-", "%s answers with %s" % (name, g_),
                   "%s answers with %s, the audited table says %s" % (name, g_, w_))
+
+
+# ---------------------------------------------------------------------------
+# integer literals: positional accumulation; concatenation: both widths known
+
+def literal_rules(run, R="TAB-op"):
+    """excerpt_as_bigint: the value handed to BigInt::new is a loop-carried accumulator whose only updates are, once per digit,
+    `acc = acc * radix` followed by `acc = acc + digit`, where radix is the very value that decided the digit's validity
+    (char::to_digit) and digit is to_digit's answer; nothing else writes it."""
+    from rules_sym import deep
+    from mir import natural_loop, op_local
+    g = run.anchor(R, "syntax::excerpt::excerpt_as_bigint")
+    if g is None:
+        return
+    news = [(bi, t) for bi, t in g.calls() if (t.get("callee") or "").endswith("util::bigint::BigInt::new")]
+    todig = [(bi, t) for bi, t in g.calls() if (t.get("callee") or "").endswith("::to_digit")]
+    ok = len(news) == 1 and len(todig) == 1
+    why = "%d BigInt::new call(s), %d to_digit call(s)" % (len(news), len(todig))
+    if ok:
+        acc = g.copy_root(op_local(news[0][1]["args"][0]))
+        radix = deep(g, todig[0][1]["args"][1], 4)
+        dg_block = todig[0][0]
+        in_loop = set()
+        for h in g.reachable():
+            in_loop |= natural_loop(g, h)
+        # every write of the accumulator (directly or through a temporary that is then moved into it)
+        writes = []
+        for d in g.full_defs(acc):
+            if d[0] == "call":
+                writes.append((d[1], d[2].get("callee") or "?", [deep(g, a, 4) for a in d[2]["args"]]))
+            else:
+                st = d[3]
+                o = st["rv"].get("op") if st["rv"]["k"] == "use" else None
+                src = g.origin_op(o) if o is not None else ("other",)
+                src = peel(src) if src else src
+                if src and src[0] == "call":
+                    writes.append((src[2], src[1].get("callee") or "?", [deep(g, a, 4) for a in src[1]["args"]]))
+                else:
+                    writes.append((d[1], "assign", [deep(g, o, 3) if o is not None else st["rv"]["k"]]))
+        why = "writes of the accumulator: %s" % [(c.split("::")[-1], a) for _, c, a in writes]
+        muls = [w for w in writes if w[1] == "std::ops::Mul::mul"]
+        adds = [w for w in writes if w[1] == "std::ops::Add::add"]
+        inits = [w for w in writes if w not in muls and w not in adds]
+        ok = len(muls) == 1 and len(adds) == 1 and len(inits) == 1
+        if ok:
+            (mb, _, ma), (ab, _, aa), (ib, ic, ia) = muls[0], adds[0], inits[0]
+            ok = ma[1] == radix and "to_digit(" in aa[1] and aa[1].endswith("@Some.0") and ma[0].startswith("var") and aa[0].startswith("var")
+            if not ok:
+                why = "the update is `acc * %s`, `acc + %s`; the digit test uses radix `%s`" % (ma[1], aa[1][:60], radix)
+            elif not (mb in in_loop and ab in in_loop and g.dominates(dg_block, mb) and g.dominates(mb, ab) and ib not in in_loop and ia in (["0_i32"], ["0_u32"], ["0_usize"], ["0_u64"], ["0_i64"])):
+                ok = False
+                why = "multiply/add are not both inside the digit loop after the digit test (in that order), or the accumulator does not start from 0 (%s %s)" % (ic.split("::")[-1], ia)
+    run.check(ok, R, R + "|literal|positional-accumulation", g.loc(),
+              "excerpt_as_bigint: the literal's value starts at 0 and is updated exactly once per accepted digit as value*radix + digit, with the radix that validated the digit",
+              "excerpt_as_bigint: %s: digits would not all be weighted by their position" % why)
+
+
+def concat_rule(run, R="TAB-op"):
+    """the `@` arm of the evaluator: the only Ok answer is BigInt::concat over both operands with their own declared widths, reached
+    only when both widths are known; an unknown width is an error"""
+    from rules_sym import deep, option_tests
+    ev = [f for f in run.prog.real_fns() if f.id.endswith("Expr>::eval_with_ctx")]
+    if len(ev) != 1:
+        run.violation(R, R + "|concat|widths", "", "mechanism not found: Expr::eval_with_ctx")
+        return
+    ev = ev[0]
+    arm = None
+    for b, arms, oth, pl, vs in T.enum_switch_arms(ev, "BinaryOp"):
+        if "Concat" in arms:
+            arm = (b, arms["Concat"])
+    if arm is None:
+        run.violation(R, R + "|concat|widths", ev.loc(), "mechanism not found: the Concat arm of the binary-operator match")
+        return
+    reg = T.dominated_region(ev, arm[1], arm[0])
+    oks, bad = 0, []
+    for x in sorted(reg):
+        for st in ev.blocks[x]["stmts"]:
+            if st["k"] == "assign" and st["place"]["l"] == 0 and not st["place"]["p"] and st["rv"]["k"] == "agg" and st["rv"].get("variant") == "Ok":
+                oks += 1
+                d = deep(ev, st["rv"]["ops"][0], 10)
+                m = re.match(r"^Integer\{BigInt::concat\((.*)\)\}?$", d)
+                if not m:
+                    bad.append("an Ok answer that is not BigInt::concat: `%s`" % d[:90])
+                    continue
+                parts = _split_args(m.group(1))
+                # (lhs, (lhs.size, 0), rhs, (rhs.size, 0))
+                if len(parts) != 4:
+                    bad.append("BigInt::concat called with %d argument(s)" % len(parts))
+                    continue
+                l, lw, r, rw = parts
+                for side, val, w in (("left", l, lw), ("right", r, rw)):
+                    want = "tuple(%s.size@Some.0, 0_usize)" % val
+                    if w != want:
+                        bad.append("the %s slice is `%s`, not the operand's whole declared width" % (side, w[:80]))
+                if l == r:
+                    bad.append("both operands are the same value")
+    why = "; ".join(bad) if bad else "no Ok answer in the Concat arm"
+    run.check(oks >= 1 and not bad, R, R + "|concat|widths", ev.loc(),
+              "`@`: the only successful answer is BigInt::concat(lhs, (lhs.size, 0), rhs, (rhs.size, 0)) with both sizes known (%d Ok site(s))" % oks,
+              "evaluator, Concat arm: %s" % why)
+
+
+def _split_args(s):
+    out, depth, cur = [], 0, ""
+    for ch in s:
+        if ch in "([{":
+            depth += 1
+        elif ch in ")]}":
+            depth -= 1
+        if ch == "," and depth == 0:
+            out.append(cur.strip())
+            cur = ""
+        else:
+            cur += ch
+    if cur.strip():
+        out.append(cur.strip())
+    return out
